@@ -4,6 +4,8 @@ import MpireModel.Model.Chunk
 import MpireModel.Proofs.Protocol
 import MpireModel.Proofs.Reorder
 import MpireModel.Proofs.Chunk
+import MpireModel.Model.ResultIter
+import MpireModel.Proofs.ResultIter
 /-!
 # C01 — map-family results equal sequential evaluation
 
@@ -68,5 +70,43 @@ theorem ordered_equals_sequential {β} (f : Nat → β) (m n : Nat) (chunks : Li
 
 example : imap [(2, "c"), (0, "a"), (1, "b")] = ["a", "b", "c"] ∧ imapPrefix [(2, "c"), (0, "a")] = ["a"] := by
   decide +kernel
+
+/-! ## The object the caller reads the results from (`Mpire.ResultIter`, async_result.py UnorderedAsyncResultIterator) -/
+section ResultIterator
+open Mpire.ResultIter
+
+/-- Every result the results handler stores is handed to the caller exactly once and in arrival order, for EVERY
+history of `_set` (results and the call's exception), `set_length`, blocking and non-blocking `next`, and time-outs of
+a waiting `next`: what `next` returned so far, followed by what is still queued, is the sequence of stored results. -/
+theorem results_handed_over_once_in_arrival_order (n : Option Nat) (ops : List Op) :
+    values (run (init n) ops).2 ++ (run (init n) ops).1.items = oks ops := by
+  have h := Mpire.Proofs.ResultIter.run_fifo ops (init n) (Mpire.Proofs.ResultIter.inv_init n)
+  simpa [ResultIter.init] using h
+
+/-- The counters are those of that sequence: received = returned + queued, and a caller waits only on an empty queue. -/
+theorem iterator_counters (n : Option Nat) (ops : List Op) :
+    let s := (run (init n) ops).1
+    s.nReceived = s.nReturned + s.items.length ∧ (s.waiting = true → s.items = []) := by
+  have h := Mpire.Proofs.ResultIter.run_inv ops (init n) (Mpire.Proofs.ResultIter.inv_init n)
+  exact ⟨h.2, h.1⟩
+
+/-- Iteration ends (`StopIteration`) only when nothing is queued and the number returned equals both the announced
+length and the number received: the caller never loses a result to an early end. -/
+theorem stop_only_after_everything (n : Option Nat) (ops : List Op) (op : Op)
+    (hs : (step (run (init n) ops).1 op).2 = .stop) :
+    let s := (step (run (init n) ops).1 op).1
+    s.items = [] ∧ s.nTasks = some s.nReturned ∧ s.nReceived = s.nReturned ∧ s.waiting = false :=
+  Mpire.Proofs.ResultIter.stop_means_all _ op
+    (Mpire.Proofs.ResultIter.run_inv ops (init n) (Mpire.Proofs.ResultIter.inv_init n)) hs
+
+/-- A second, different length is refused and changes nothing (this is the `ValueError` by which defect D1 showed). -/
+theorem conflicting_length_refused (s : It) (m k : Nat) (hm : s.nTasks = some m) (hk : m ≠ k) :
+    step s (.setLength k) = (s, .valueError) := by
+  simp [ResultIter.step, hm, hk]
+
+example : (run (init none) [.setOk 7, .next true, .next true, .setOk 8, .setLength 2, .next false]).2 =
+    [.none, .value 7, .waits, .value 8, .none, .stop] := by decide
+
+end ResultIterator
 
 end Mpire.C01
